@@ -6,12 +6,15 @@ import floatcorr
 GEN = ['numeric']
 LEAN_MODULES = ['XfabVerif.Proofs.C10']
 LEAN_DRIVER_MODULES = ['XfabVerif.Gen.FloatDispatch']
-RULE = ("seeded uniform draws from the property's box: 2theta in (0.5,60) deg, eta in [0,2pi), tilts in [-0.3,0.3] rad, distance 10..1000, "
+RULE = ("seeded uniform draws from the property's box: 2theta in (0.5,60) deg, eta in [0,2pi), tilts in [-0.3,0.3] rad, distance 10..1000, a third of the draws with exact special values (zero tilts/offsets, eta a multiple of 90 deg, equal pixel sizes), "
         "pixel sizes 0.01..0.5, grain offsets +-2, beam centre +-2000; non-trivial = at least one tilt and one grain offset non-zero; distinct = distinct input tuples")
 ASSUMPTIONS = ["theorems are over the reals; the Float twin and the oracle compare to 1e-9 relative"]
 
 
-def draw(rng, trivial=False):
+def draw(rng, trivial=False, special=False):
+    """special=True: every component is, with probability 1/2, an exact special value (a tilt of exactly 0, an offset of
+    exactly 0, eta a multiple of pi/2, equal pixel sizes, centred beam): value-keyed fast paths and degenerate branches
+    have measure zero under the uniform draw"""
     tth = math.radians(rng.uniform(0.5, 60))
     eta = rng.uniform(0, 2 * math.pi)
     tilt = [0.0, 0.0, 0.0] if trivial else [rng.uniform(-0.3, 0.3) for _ in range(3)]
@@ -20,6 +23,17 @@ def draw(rng, trivial=False):
     yc, zc = rng.uniform(-2000, 2000), rng.uniform(-2000, 2000)
     t = [0.0, 0.0, 0.0] if trivial else [rng.uniform(-2, 2) for _ in range(3)]
     lam = rng.uniform(0.1, 1.5)
+    if special:
+        tilt = [0.0 if rng.random() < 0.5 else x for x in tilt]
+        t = [0.0 if rng.random() < 0.5 else x for x in t]
+        if rng.random() < 0.5:
+            eta = rng.choice([0.0, 0.5 * math.pi, math.pi, 1.5 * math.pi])
+        if rng.random() < 0.3:
+            pz = py
+        if rng.random() < 0.3:
+            yc = zc = 0.0
+        if rng.random() < 0.2:
+            tth = math.radians(rng.choice([30.0, 45.0, 60.0]))
     return dict(tth=tth, eta=eta, tilt=tilt, L=L, py=py, pz=pz, yc=yc, zc=zc, t=t, lam=lam)
 
 
@@ -27,7 +41,7 @@ def correspondence(ctx):
     from xfab import detector, tools
     cases = []
     for i in range(ctx.n(80, 5000)):
-        d = draw(ctx.rng, trivial=(i % 10 == 0))
+        d = draw(ctx.rng, trivial=(i % 10 == 0), special=(i % 4 == 1))
         R = tools.detect_tilt(*d['tilt'])
         Rf = [float(x) for x in R.ravel()]
         k = 2 * math.pi / d['lam']
@@ -84,7 +98,7 @@ def oracle(ctx, hints=()):
     viol, n, nontriv = [], ctx.n(400, 100000, boost=20000), 0
     sample = None
     for i in range(n):
-        d = draw(ctx.rng, trivial=(i % 20 == 0))
+        d = draw(ctx.rng, trivial=(i % 20 == 0), special=(i % 3 == 1))
         sample = sample or d
         if any(d['tilt']) and any(d['t']):
             nontriv += 1
